@@ -1,6 +1,7 @@
 import TF.Proofs.MmrAcc
 import TF.Proofs.MmrAccBounded
 import TF.Proofs.MmrAccBatch
+import TF.Proofs.MmrAccVerify
 /-!
 # C11 — the MMR accumulator always commits to the current leaf list
 
@@ -110,7 +111,7 @@ theorem verify_batch_update_rejects_dup_or_oob [BEq D] (a : Acc D) (np app : Lis
 example : ∃ m ∈ [({ leaf_index := 5, new_leaf := 0, auth := [] } : LeafMutation Nat)], (3 : Nat) ≤ m.leaf_index :=
   ⟨_, List.mem_singleton.mpr rfl, by decide⟩
 
-/-! ## batch operations — full statements, proved parts, bounded model checks -/
+/-! ## batch operations — full statements and their proofs, bounded model checks (kept as tests) -/
 
 /-- FULL STATEMENT: batch mutation with distinct in-range indices and valid proofs (relative to the leaf list
     *before* the batch), in any order, with any tracked valid proofs: the accumulator holds the from-scratch peaks of
@@ -150,9 +151,8 @@ example : ¬ (([⟨2, 5, []⟩, ⟨1, 6, []⟩, ⟨2, 7, []⟩] : List (LeafMuta
 theorem batch_mutate_empty [BEq D] (a : Acc D) :
     batch_mutate_leaf_and_update_mps H a [] [] [] = some (a, [], []) := batch_empty H a
 
-/-- FULL STATEMENT (not yet proved in general): for distinct in-range indices and valid proofs, batch-update
-    verification returns true exactly when the stated peaks are the from-scratch peaks after the stated mutations
-    and appends -/
+/-- FULL STATEMENT: for distinct in-range indices and valid proofs, batch-update verification returns true exactly
+    when the stated peaks are the from-scratch peaks after the stated mutations and appends -/
 def verify_batch_update_iff_statement : Prop :=
   ∀ (D : Type) [BEq D] [LawfulBEq D] (H : D → D → D) (n : Nat) (f : Nat → D) (ms : List (Nat × D)) (apps np : List D),
     n + apps.length < 2^63 → (ms.map Prod.fst).Nodup → (∀ m ∈ ms, m.1 < n) →
@@ -161,9 +161,35 @@ def verify_batch_update_iff_statement : Prop :=
       = some (peaks H (n + apps.length)
           (applyUpdates (applyUpdates f ms) (apps.zipIdx.map fun (x, k) => (n + k, x))) == np)
 
-/-- proved part of `verify_batch_update_iff_statement`: no mutations, one appended leaf (the common "verify an append"
-    use): accepted iff the stated peaks are the from-scratch peaks of the extended list -/
-theorem verify_batch_update_iff_partial [BEq D] (n : Nat) (hn : n + 1 < 2^64) (f : Nat → D) (np : List D) :
+/-- **`verify_batch_update` accepts exactly the from-scratch peaks** (`verify_batch_update_iff_statement`, proved in
+    full; the excluded inputs — repeated or out-of-range indices — are `verify_batch_update_rejects_dup_or_oob`).
+    Invariant of the mutation loop: the running peaks are the from-scratch peaks of the current leaf list and the
+    remaining mutations carry their from-scratch proofs in it; `batch_update_from_leaf_mutation` repairs them because
+    a single mutation changes at most one digest of any other path, the one stored under a node index on the mutated
+    leaf's direct path. -/
+theorem verify_batch_update_iff : verify_batch_update_iff_statement := by
+  intro D _ _ H n f ms apps np hn hnd hms
+  exact TF.MmrAccVerify.verify_batch_update_iff_model H n f ms apps np hn hnd hms
+example : (5 : Nat) + ([1, 2] : List Nat).length < 2^63 := by decide
+
+/-- the same as an equivalence -/
+theorem verify_batch_update_accepts_iff [BEq D] [LawfulBEq D] (n : Nat) (f : Nat → D) (ms : List (Nat × D))
+    (apps np : List D) (hn : n + apps.length < 2^63) (hnd : (ms.map Prod.fst).Nodup) (hms : ∀ m ∈ ms, m.1 < n) :
+    verify_batch_update H { leaf_count := n, peaks := peaks H n f } np apps
+        (ms.map fun m => { leaf_index := m.1, new_leaf := m.2, auth := (authPath H n f m.1).getD [] }) = some true
+      ↔ np = peaks H (n + apps.length)
+          (applyUpdates (applyUpdates f ms) (apps.zipIdx.map fun (x, k) => (n + k, x))) := by
+  rw [verify_batch_update_iff D H n f ms apps np hn hnd hms]
+  constructor
+  · intro h
+    exact (eq_of_beq (Option.some.inj h)).symm
+  · intro h
+    subst h
+    rw [beq_self_eq_true]
+example : (([(1, 10), (0, 11)] : List (Nat × Nat)).map Prod.fst).Nodup := by decide
+
+/-- no mutations, one appended leaf (the common "verify an append" use), for every count below `2^64 - 1` -/
+theorem verify_one_append_iff [BEq D] (n : Nat) (hn : n + 1 < 2^64) (f : Nat → D) (np : List D) :
     verify_batch_update H { leaf_count := n, peaks := peaks H n f } np [f n] []
       = some (peaks H (n+1) f == np) := verify_one_append H n hn f np
 example : (7 : Nat) + 1 < 2^64 := by decide
